@@ -467,3 +467,148 @@ func sizeOfBasic(b *types.Basic) int {
 	}
 	return 8
 }
+
+// checkIdentifierClasses (R11): the emitter writes a property key bare when every character passes the predicates of
+// property_key.go. The lexer accepts a bare name when it matches IdentifierStart IdentifierPart*, which the grammar
+// spells with Unicode properties: ID_Start | Pc, and ID_Continue | Sc. By UAX #31, ID_Start is drawn from the general
+// categories L and Nl plus Other_ID_Start, and ID_Continue adds Mn, Mc, Nd, Pc and Other_ID_Continue. The categories the
+// predicates admit are read off their bodies (unicode.IsLetter = L, unicode.IsNumber = Nd+Nl+No, unicode.In(c, tables…));
+// a category outside the allowed set means some key is written bare that the lexer does not take as a name.
+func checkIdentifierClasses(r *Run, g *Grammar) {
+	const rule = "C07-R11-identifier-classes"
+	props := func(lexRule string) (map[string]bool, bool) {
+		out := map[string]bool{}
+		body, ok := g.Lexer[lexRule]
+		if !ok {
+			return nil, false
+		}
+		for _, tok := range strings.Fields(strings.NewReplacer("|", " ", ";", " ", "(", " ", ")", " ").Replace(body)) {
+			// a reference to a fragment whose body is [\p{X}]
+			if fb, isFrag := g.Lexer[tok]; isFrag {
+				i := strings.Index(fb, `\p{`)
+				j := strings.Index(fb, "}")
+				if i < 0 || j < i {
+					return nil, false
+				}
+				out[fb[i+3:j]] = true
+			} else {
+				return nil, false
+			}
+		}
+		return out, len(out) > 0
+	}
+	startProps, ok1 := props("IdentifierStart")
+	partProps, ok2 := props("IdentifierPart")
+	if !ok1 || !ok2 {
+		r.Undecide("C07-R11: IdentifierStart / IdentifierPart are not unions of \\p{…} fragments any more")
+		return
+	}
+	// UAX #31 derivations of the properties the grammar names, as sets of general categories and Other_ properties
+	derivation := map[string][]string{
+		"ID_Start":    {"L", "Lu", "Ll", "Lt", "Lm", "Lo", "Nl", "Other_ID_Start"},
+		"ID_Continue": {"L", "Lu", "Ll", "Lt", "Lm", "Lo", "Nl", "Other_ID_Start", "Mn", "Mc", "Nd", "Pc", "Other_ID_Continue"},
+		"Sc":          {"Sc"},
+		"Pc":          {"Pc"},
+	}
+	allowed := func(ps map[string]bool) (map[string]bool, bool) {
+		out := map[string]bool{}
+		for p := range ps {
+			cats, known := derivation[p]
+			if !known {
+				return nil, false
+			}
+			for _, c := range cats {
+				out[c] = true
+			}
+		}
+		return out, true
+	}
+	allowedStart, k1 := allowed(startProps)
+	allowedPart, k2 := allowed(partProps)
+	if !k1 || !k2 {
+		r.Undecide("C07-R11: the grammar names a Unicode property the checker has no derivation for (%v / %v)", sortedKeys(startProps), sortedKeys(partProps))
+		return
+	}
+	for c := range allowedStart {
+		allowedPart[c] = true // a part may be anything a start may be only if the grammar says so; ID_Continue ⊇ ID_Start
+	}
+	cp := r.MustPkg("cypher/models/cypher")
+	info := cp.TypesInfo
+	decls := FuncDecls(cp)
+	funcCats := map[string][]string{"IsLetter": {"L"}, "IsNumber": {"Nd", "Nl", "No"}, "IsDigit": {"Nd"}, "IsMark": {"Mn", "Mc", "Me"}, "IsPunct": {"Pc", "Pd", "Ps", "Pe", "Pi", "Pf", "Po"}, "IsSymbol": {"Sm", "Sc", "Sk", "So"}, "IsUpper": {"Lu"}, "IsLower": {"Ll"}, "IsTitle": {"Lt"}, "IsSpace": {"Zs", "space"}, "IsControl": {"Cc"}, "IsGraphic": {"graphic"}, "IsPrint": {"print"}}
+	var catsOf func(name string, depth int) (map[string]bool, bool)
+	catsOf = func(name string, depth int) (map[string]bool, bool) {
+		fd := decls[name]
+		if fd == nil || fd.Body == nil || depth > 3 {
+			return nil, false
+		}
+		out := map[string]bool{}
+		ok := true
+		ast.Inspect(fd.Body, func(x ast.Node) bool {
+			call, isCall := x.(*ast.CallExpr)
+			if !isCall {
+				return true
+			}
+			fn := calleeOf(info, call)
+			if fn == nil {
+				return true
+			}
+			switch {
+			case fn.Pkg() != nil && fn.Pkg().Path() == "unicode" && fn.Name() == "In":
+				for _, a := range call.Args[1:] {
+					if sel, isSel := ast.Unparen(a).(*ast.SelectorExpr); isSel {
+						out[sel.Sel.Name] = true
+					} else {
+						ok = false
+					}
+				}
+				return false
+			case fn.Pkg() != nil && fn.Pkg().Path() == "unicode":
+				cats, known := funcCats[fn.Name()]
+				if !known {
+					ok = false
+				}
+				for _, c := range cats {
+					out[c] = true
+				}
+			case fn.Pkg() == cp.Types:
+				sub, k := catsOf(fn.Name(), depth+1)
+				if !k {
+					ok = false
+				}
+				for c := range sub {
+					out[c] = true
+				}
+			}
+			return true
+		})
+		return out, ok
+	}
+	for _, spec := range []struct {
+		fn      string
+		allowed map[string]bool
+		pos     string
+	}{{"isCypherSymbolStart", allowedStart, "IdentifierStart"}, {"isCypherSymbolPart", allowedPart, "IdentifierPart"}} {
+		cats, ok := catsOf(spec.fn, 0)
+		if !ok || len(cats) == 0 {
+			r.Undecide("C07-R11: the categories admitted by cypher.%s could not be read off its body", spec.fn)
+			continue
+		}
+		var extra []string
+		for c := range cats {
+			if !spec.allowed[c] {
+				extra = append(extra, c)
+			}
+		}
+		sort.Strings(extra)
+		pos := token.NoPos
+		if fd := decls[spec.fn]; fd != nil {
+			pos = fd.Pos()
+		}
+		if len(extra) == 0 {
+			r.Pass(rule, spec.fn, pos, "admits only categories of the grammar's %s (%s)", spec.pos, strings.Join(sortedKeys(cats), ", "))
+		} else {
+			r.Fail(rule, spec.fn, pos, "cypher.%s admits characters of %s, which the grammar's %s does not: a property key holding one (a superscript two, a circled digit: category No) is emitted bare and the lexer rejects the text", spec.fn, strings.Join(extra, ", "), spec.pos)
+		}
+	}
+}
